@@ -36,7 +36,7 @@ from embit.liquid.transaction import LTransaction, LTransactionInput, LTransacti
 from embit.util import secp256k1 as real_secp
 
 PROP = "C18"
-MODS = ["EmbitModel.Props.C18", "EmbitModel.Props.C18X", "EmbitModel.Props.C18Y"]
+MODS = ["EmbitModel.Props.C18", "EmbitModel.Props.C18X", "EmbitModel.Props.C18Y", "EmbitModel.Props.C18Z"]
 
 
 # ================================================================ A. transaction codec
@@ -155,26 +155,6 @@ def impl_pset_parse(b):
         return None
 
 
-def d42_classifier(rec):
-    """D53: version-0 PSET — what the scopes cannot hold of the global transaction is not kept: the issuance /
-    peg-in part of an input (rebuilt from the scope's own fields) and the nonce of a confidential output. Accepted
-    only when the reconstructed transaction equals the global one in everything except exactly those parts."""
-    if rec.get("op") != "pset.v0tx":
-        return False
-    try:
-        g = LTransaction.parse(bytes.fromhex(rec["global_tx"]))
-        t = LTransaction.parse(bytes.fromhex(rec["tx"]))
-
-        def strip(x):
-            return LTransaction(x.version, [LTransactionInput(i.txid, i.vout, i.script_sig, i.sequence) for i in x.vin],
-                                [LTransactionOutput(o.asset, o.value, o.script_pubkey) for o in x.vout], x.locktime).serialize()
-
-        differs = any(i.has_issuance or i.is_pegin for i in list(g.vin) + list(t.vin)) or any(o.ecdh_pubkey for o in g.vout)
-        return differs and strip(g) == strip(t)
-    except Exception:
-        return False
-
-
 def check_pset_lossless(c, b, p, kind):
     """the property on embit alone: no pair lost (modulo the two spellings of an output key), no duplicate accepted,
     version 0: same transaction, serialise-then-parse identity"""
@@ -265,13 +245,33 @@ def check_pset_bytes(c, kind, b, lossless=True):
 
 
 def v0_with_issuance(rng):
-    """version-0 PSET whose global transaction carries an issuance / peg-in flag (finding D42)"""
+    """version-0 PSET whose global transaction carries an issuance / peg-in flag and / or a confidential output with a
+    nonce (the region of finding D53, repaired by fixes/d53.diff: the transaction must survive parse -> tx -> serialise)"""
     from embit.liquid.transaction import AssetIssuance
     r = rng.random()
     i = LTransactionInput(gen.rbytes(rng, 32), rng.randrange(0, 9), Script(b""), 0xFFFFFFFD,
                           is_pegin=r < 0.4,
                           asset_issuance=None if r < 0.2 else AssetIssuance(gen.rbytes(rng, 32), gen.rbytes(rng, 32), rng.choice([5, 10**8]), rng.choice([None, 1])))
-    o = LTransactionOutput(gen.rbytes(rng, 32), rng.getrandbits(40), Script(gen.rbytes(rng, 22)))
+    if rng.random() < 0.5:
+        o = LTransactionOutput(gen.rbytes(rng, 32), rng.getrandbits(40), Script(gen.rbytes(rng, 22)))
+    else:
+        o = LTransactionOutput(bytes([rng.choice([0x0a, 0x0b])]) + gen.rbytes(rng, 32), bytes([rng.choice([0x08, 0x09])]) + gen.rbytes(rng, 32),
+                               Script(gen.rbytes(rng, 22)), bytes([rng.choice([2, 3])]) + gen.rbytes(rng, 32))
+    tx = LTransaction(2, [i], [o], 0)
+    return gl.build_pset(tx, 0, [[]], [[]])
+
+
+def v0_signed(rng):
+    """version-0 PSET whose global transaction carries a witness (audit2 B-4, repaired by fixes/b4.diff: refused)"""
+    from embit.liquid.transaction import TxInWitness, TxOutWitness, Proof, RangeProof
+    from embit.script import Witness
+    r = rng.randrange(4)
+    wi = TxInWitness(script_witness=Witness([gen.rbytes(rng, 3)])) if r == 0 else \
+        TxInWitness(pegin_witness=Witness([gen.rbytes(rng, 2)])) if r == 1 else \
+        TxInWitness(Proof(gen.rbytes(rng, 4))) if r == 2 else None
+    wo = TxOutWitness(Proof(gen.rbytes(rng, 3)), RangeProof(gen.rbytes(rng, 3))) if r == 3 else None
+    i = LTransactionInput(gen.rbytes(rng, 32), rng.randrange(0, 9), Script(b""), 0xFFFFFFFD, witness=wi)
+    o = LTransactionOutput(gen.rbytes(rng, 32), rng.getrandbits(40), Script(gen.rbytes(rng, 22)), witness=wo)
     tx = LTransaction(2, [i], [o], 0)
     return gl.build_pset(tx, 0, [[]], [[]])
 
@@ -293,6 +293,11 @@ def explore_pset(c, n, budget):
             c.flush()
     for _ in range(max(2, n // 40)):
         check_pset_bytes(c, "v0-issuance", v0_with_issuance(c.rng))
+        b = v0_signed(c.rng)
+        if impl_pset_parse(b) is not None:
+            c.fail("version-0 PSET with a SIGNED global transaction accepted (witness would be dropped; audit2 B-4)",
+                   {"op": "pset.v0signed", "bytes": hx(b)})
+        check_pset_bytes(c, "v0-signed", b)
     c.flush()
 
 
@@ -838,20 +843,19 @@ def explore_b58_addresses(c, n):
 def witnesses(c):
     """the witness points of the C18X theorems, replayed on embit and on the model"""
     from embit.liquid.transaction import LTransaction, LTransactionInput, LTransactionOutput
-    # pset_v0_tx_dropped_D53: version-0 PSET whose global transaction has a peg-in input
+    # C18Z.pset_v0_pegin_kept (the former D53 witness): version-0 PSET whose global transaction has a peg-in input
     tx = LTransaction(2, [LTransactionInput(bytes([7]) * 32, 1, Script(b""), 0xfffffffd, is_pegin=True)],
                       [LTransactionOutput(bytes([4]) * 32, 1000, Script(b"\x51"))], 0)
     g = tx.serialize()
     b = b"pset\xff" + bytes([1, 0, len(g)]) + g + b"\x00" + b"\x00" + b"\x00"
     p = impl_pset_parse(b)
     c.count(("witness-d53",), nontrivial=True)
-    if p is None or p.tx.serialize() == g or p.tx.vin[0].is_pegin:
-        c.tally("witness:D53-not-reproduced")
-        c.fail("witness of C18X.pset_v0_tx_dropped_D53 does not reproduce on embit (D53 repaired? then the _partial "
-               "statement can be strengthened)", {"op": "witness", "bytes": hx(b)})
+    if p is None or p.tx.serialize() != g or p.serialize() != b:
+        c.tally("witness:D53-present")
+        c.fail("version-0 PSET with a peg-in input: transaction not kept (D53, C18Z.pset_v0_pegin_kept)", {"op": "witness", "bytes": hx(b)})
     else:
-        c.tally("witness:D53-reproduced")
-    check_pset_bytes(c, "witness-D53", b)     # model = code; the predicate failure is classified as known finding D53
+        c.tally("witness:D53-repaired")
+    check_pset_bytes(c, "witness-D53", b)
     c.flush()
 
 
@@ -885,7 +889,6 @@ def corpus(c):
 
 def run(tier, seed):
     c = Check(PROP, MODS, tier, seed)
-    c.classifiers["pset_v0_global_tx_issuance_dropped"] = d42_classifier
     c.rule = ("Liquid transactions: seeded random well-formed LTransactions (0-4 inputs incl. null index, peg-in / issuance flags, explicit and "
               "committed asset/value/nonce with unusual prefix bytes, witnesses) + wire mutations (truncation, trailing bytes, flag byte, superfluous "
               "witness, non-minimal lengths, bit/byte mutations) + the recorded transaction; PSETs: the six recorded PSETs with mutations and "
